@@ -271,6 +271,11 @@ def d3(cx: Cx, ob: Ob) -> None:
                         continue
                     if got == want or (want, got, n >= 2, mg) in seen_bad:
                         continue
+                    if got == "raise" and want in ("append", "merge") and ob.id[:3] not in ("C05", "C09") and not appended and not merged and not any(ev.kind == "store" for ev in p.events):
+                        # one more REJECTED call that leaves the converter as it was: C05 (which lists the reasons
+                        # for rejection) and C09 (chain raises only for bridging records) object; the properties
+                        # that share this rule for what successful calls build do not
+                        continue
                     seen_bad.add((want, got, n >= 2, mg))
                     line = p.out[2] if p.out is not None and len(p.out) > 2 else (gs[-1].line if gs else fn.node.lineno)
                     world = f"{'no' if n == 0 else 'one' if n == 1 else 'several'} matching record{'s' if n != 1 else ''}, merge={mg}"
@@ -1077,7 +1082,26 @@ def check_compare_helpers(cx: Cx, ob: Ob) -> None:
                     return "F"
             return None
 
-        bis = [x for t, _, _ in hs.all_terms() for x in subterms(t) if op(x) == "call" and op(x[1]) == "ext" and x[1][1].startswith("bisect.")]
+        def bisect_membership(t, A=A, Bp=Bp):
+            """``i = bisect_left(S, a); i < len(S) and S[i] == a`` over ``S = sorted(bs)`` made in the helper itself is
+            ``a in bs`` (the sort establishes what the search needs)."""
+            if op(t) == "and" and len(t[1]) == 2:
+                for x, y in (t[1], t[1][::-1]):
+                    if op(x) == "cmp" and op(y) == "cmp" and y[1] == "==":
+                        i = x[2] if x[1] == "<" else x[3] if x[1] == ">" else None
+                        n = x[3] if x[1] == "<" else x[2] if x[1] == ">" else None
+                        if i is None or not (op(i) == "call" and i[1] == ("ext", "bisect.bisect_left") and len(i[2]) == 2 and not i[3]):
+                            continue
+                        S, needle = i[2]
+                        sorted_here = op(S) == "call" and S[1] == ("builtin", "sorted") and S[2] == (Bp,) and not S[3]
+                        if sorted_here and needle == A and n == ("call", ("builtin", "len"), (S,), ()) and {y[2], y[3]} == {("item", S, i), A}:
+                            return ("cmp", "in", A, Bp)
+            return t
+
+        from ..terms import rewrite as _rewrite
+
+        ret_terms = [_rewrite(t, bisect_membership) for t, _ in hs.returns()]
+        bis = [x for t in ret_terms + [g.a for _, ctx in hs.returns() for g in ctx.guards if g.kind == "guard"] for x in subterms(t) if op(x) == "call" and op(x[1]) == "ext" and x[1][1].startswith("bisect.")]
         if bis:
             ob.violate(
                 h.qualname,
@@ -1100,7 +1124,7 @@ def check_compare_helpers(cx: Cx, ob: Ob) -> None:
                         got = None
                         for t, ctx in hs.returns():
                             if all(_bool_eval(g.a, atom, env) == g.b for g in ctx.guards if g.kind == "guard"):
-                                got = _bool_eval(t, atom, env)
+                                got = _bool_eval(_rewrite(t, bisect_membership), atom, env)
                                 break
                         want = E if Cv else F
                         if got is None:
